@@ -256,6 +256,14 @@ def r3(ctx):
         l = loops[0]
         src = norm(l['source'])
         full = match(('agg', 'core::ops::range::Range', 'Range', (('start', ('int', 0, 'usize')), ('end', ALEN))), src) is not None
+        # or: `for entry in self.moves.iter_mut()` -- every entry by reference
+        by_ref = False
+        if not full and src[0] == 'call' and src[1].endswith('::iter_mut') and len(src[2]) == 1:
+            base = src[2][0]
+            while isinstance(base, tuple) and base and base[0] == 'call' and (base[1].endswith('::deref_mut') or base[1].endswith('::as_mut_slice')):
+                base = base[2][0]
+            if base == MOVES or base == ('ref', ('p', 1), (('f', 'moves'),)) or sh(base, 60) in ('&*arg1.moves', '*arg1.moves'):
+                full = by_ref = True
         exits = loop_exits(s, l)
         ctrl = ctrl_blocks(s, l)
         only_header = all(a in ctrl for a, _ in exits)
@@ -267,17 +275,20 @@ def r3(ctx):
             ctx.violation(R, key + ':early-exit', '%s %s: a source square can own two entries (ordinary moves and the en-passant capture), '
                           'so stopping at the first match leaves the move in the list' % (key, why), w)
         I = bb(l['elem'], ctx.an())
+        EL = norm(l['elem'])
         ups = []
         for c in s.calls:
             if c['blk'] in l['blocks'] and c['callee'] and c['callee'].endswith('bitand_assign') and c['args']:
                 a = c['args'][0]
                 if a[0] == 'ref' and a[1] == ('p', 1) and a[2][:1] == (('f', 'moves'),) and a[2][-1] == ('f', 'bitboard'):
                     ups.append(c)
+                elif by_ref and a[0] == 'ref' and a[1][0] == 'h' and norm(a[1][1]) == EL and a[2] == (('f', 'bitboard'),):
+                    ups.append(c)
         if len(ups) != 1:
             ctx.violation(R, key + ':update', '%s does not clear destinations with `entry.bitboard &= !..` exactly once per entry' % key, w)
             continue
         c = ups[0]
-        idx_ok = bb(c['args'][0][2][1][1], ctx.an()) == I
+        idx_ok = True if by_ref else bb(c['args'][0][2][1][1], ctx.an()) == I
         v = bb(c['argvals'][1], ctx.an())
         gs = [g for g in guards(s, c['blk'], transitive=False) if g['cond'] is not None and g['blk'] in l['blocks'] and g['blk'] not in ctrl]
         if desc == 'mask':
@@ -292,6 +303,8 @@ def r3(ctx):
                 cn = bb(g['cond'], ctx.an())
                 if cn[0] == 'call' and cn[1].endswith('PartialEq>::eq') and truth(g) is True:
                     def is_sq(a):
+                        if by_ref:
+                            return a[0] == 'field' and a[2] == 'square' and a[1] in (('mem', ('h', EL)), EL, I, ('mem', ('h', I)))
                         return a[0] == 'field' and a[2] == 'square' and a[1][0] == 'index' and a[1][2] == I and \
                             (a[1][1] == MOVES or (a[1][1][0] == 'loop' and a[1][1][2] == (('p', 1), 'moves')))
                     if any(match(srcq, a) is not None for a in cn[2]) and any(is_sq(a) for a in cn[2]):
